@@ -135,7 +135,16 @@ Fixpoint nats_eqb (a b : list nat) : bool :=
   | _, _ => false
   end.
 
-Definition cset_eq_printable (p q : cset) : bool := nats_eqb (codes_of p) (codes_of q).
+Fixpoint ranges_eqb (p q : cset) : bool :=
+  match p, q with
+  | [], [] => true
+  | (a, b) :: r, (c, d) :: s => if Nat.eqb a c then if Nat.eqb b d then ranges_eqb r s else false else false
+  | _, _ => false
+  end.
+
+(* identical range lists are recognised without expanding them *)
+Definition cset_eq_printable (p q : cset) : bool :=
+  if ranges_eqb p q then true else nats_eqb (codes_of p) (codes_of q).
 Definition cre_eq_printable (r s : cre) : bool := re_eqb cset_eq_printable r s.
 
 (* ---------------------------------------------------------------- tag instance (content models) *)
